@@ -13,6 +13,8 @@ import (
 	"strings"
 	"testing"
 	"time"
+
+	"github.com/pion/stun/v3"
 )
 
 // setupAgentVsPeer creates agent A (given role) with nA local addresses and a peer with nP sockets;
@@ -111,6 +113,16 @@ func (s *vfSession) peerChaos(n int, peerRole string, nominate bool, values bool
 						nextNom++
 					}
 					o.Nomination = &v
+				}
+				if o.Nomination == nil && s.rng.IntN(6) == 0 {
+					// USE-CANDIDATE accompanied by a nomination attribute of the wrong size: it carries no value, so
+					// the request is a plain USE-CANDIDATE and the priority guard applies to it
+					bad := make([]byte, []int{0, 1, 2, 3, 5, 8}[s.rng.IntN(6)])
+					for j := range bad {
+						bad[j] = byte(s.rng.IntN(256))
+					}
+					o.Extra = append(o.Extra, stun.RawAttribute{Type: DefaultNominationAttribute, Value: bad})
+					s.r.count("c03_use_candidate_with_malformed_nomination_attribute", 1)
 				}
 			}
 			m := p.build(s.A, o)
